@@ -178,7 +178,7 @@ mod verif_kani {
     fn hash_of(b: u8) -> InfoHash { let mut h = [0u8; 20]; h[0] = b; h[19] = b; InfoHash(h) }
 
     /// state: torrents 1..=T each with a symbolic (<= 2 peers) inline map; request: <= 4 hashes drawn from 0..=T+1 (repeats and unknowns allowed)
-    #[kani::proof] #[kani::unwind(12)]
+    #[kani::proof] #[kani::unwind(22)]
     fn scrape_first_max_each_once() {
         let mut tm: TorrentMap<Ipv4Addr> = TorrentMap { torrents: IndexMap::default() };
         let mut seed = [0usize; 4];
@@ -230,7 +230,7 @@ mod verif_kani {
 
     /// smaller variant: no stored torrents (every count is zero), <= 3 requested hashes out of {0,1,2}, limit <= 3.
     /// Decides WHICH hashes are reported: exactly those among the first min(n, max_scrape_torrents) requested, each once.
-    #[kani::proof] #[kani::unwind(8)]
+    #[kani::proof] #[kani::unwind(22)]
     fn scrape_prefix_only_empty_map() {
         let mut tm: TorrentMap<Ipv4Addr> = TorrentMap { torrents: IndexMap::default() };
         let mut config = Config::default();
